@@ -15,6 +15,7 @@ structure DS where
   rules : List Rule := []
   st : Option St := none
   h : Option HSt := none
+  centries : List ConfEntry := []
 
 def optStr (f : String) : Option (Option Str) :=
   if f = "~" then some none else (decStr f).map some
@@ -201,7 +202,8 @@ def handleLine (s : DS) (fs : List String) : DS × String :=
     | _, _, _, _ => (s, "bad-op")
   | ["new", lim, ss] =>
     match decNat lim, decBool ss with
-    | some lim, some ss => ({ s with limit := lim, storeSkips := ss, names := [], seeds := [], rules := [], st := none }, "ok")
+    | some lim, some ss =>
+      ({ s with limit := lim, storeSkips := ss, names := [], seeds := [], rules := [], st := none, centries := [] }, "ok")
     | _, _ => (s, "bad-op")
   | ["comp", id, name, seeded] =>
     match decNat id, decStr name, decBool seeded with
@@ -264,6 +266,22 @@ def handleLine (s : DS) (fs : List String) : DS × String :=
                             ("release", match is.release with | some v => jstr v | none => "null"),
                             ("branch", if is.branchLoaded then "true" else "false")])])
     | _, _, _, _ => (s, "bad-op")
+  | ["centry", name, exact, en, tags, links] =>
+    let en? : Option (Option Bool) := if en = "~" then some none else (decBool en).map some
+    let tags? : Option (Option (List Str)) := if tags = "~" then some none else (decStrs "," tags).map some
+    let links? : Option (Option (List (Str × List Str))) :=
+      if links = "~~" then some none else match decLinks links with
+        | some (some l) => some (some l)
+        | _ => none
+    match decStr name, decBool exact, en?, tags?, links? with
+    | some name, some exact, some en, some tags, some links =>
+      ({ s with centries := s.centries ++ [⟨name, exact, en, tags, links⟩] }, "ok")
+    | _, _, _, _, _ => (s, "bad-op")
+  | ["capply", dflt] =>
+    match decBool dflt with
+    | some dflt =>
+      ({ s with rules := s.rules.map (applyConfig ⟨dflt, s.centries⟩), centries := [] }, "ok")
+    | none => (s, "bad-op")
   | ["reprlen", d] =>
     match decDict d with
     | some d => (s, toString (reprDict d).length)
